@@ -29,6 +29,7 @@ RULE = (
     "End state: every processed file of the selected kinds/window is in the destination byte-identical, nothing "
     "else (no tmp. leftovers), readers on the destination agree with the source model, newest metadata file and "
     "properties remain in the source. Non-trivial: a duplicate or stale event, or move mode with >= 3 RF files."
+    ' Further dimensions: naive windows, sub-second file cadences with fractional window edges, construction through the `drf mirror` command line, link flag, verbose reports, a consumer downstream that prunes destination subdirectories; four LIVE scenarios with DigitalRFMirror.start() and the real observer threads (existing-then-live, late root, root replaced, backlog handled by start() while the observer delivers new files) judged with the sentinel protocol of vlib/live.py.'
 )
 ASSUMPTIONS = ["events are dispatched synchronously to every handler of DigitalRFMirror.event_handlers; no observer thread",
                "a crash of the mirror is modelled as stopping between two of its file-system operations (page cache intact)"]
